@@ -66,6 +66,7 @@ type CheckCfg struct {
 	QueryTimeoutMs  int   `json:"query_timeout_ms"`
 	Workers         int   `json:"workers"`
 	StrAlphabet     string `json:"str_alphabet"`
+	CrossSolver     string `json:"cross_solver"` // second solver re-deciding every assertion query answered unsat ("" = default of the tier, "none" = off)
 	IntFormatDigits int    `json:"int_format_digits"` // >0: integers are formatted exactly (decimal digits) under the path assumption 0 <= x < 10^digits, instead of by an uninterpreted injective function
 }
 
@@ -517,6 +518,12 @@ func (e *Engine) explore(ent *EntryCfg, deadline time.Time) *EntryResult {
 					kind = ent.Solver
 				}
 				solver, err = NewSolver(kind, time.Duration(e.cfg.QueryTimeoutMs)*time.Millisecond, logPath)
+					if cross := e.cfg.CrossSolver; err == nil && cross != "" && cross != "none" {
+						if cross == kind {
+							cross = map[bool]string{true: "z3-new", false: "z3"}[kind == "z3"]
+						}
+						solver.mirror, _ = NewSolver(cross, time.Duration(e.cfg.QueryTimeoutMs)*time.Millisecond, "")
+					}
 					if err != nil {
 						mu.Lock()
 						res.Inconclusive = append(res.Inconclusive, "cannot start solver: "+err.Error())
